@@ -249,4 +249,45 @@ class C18c(Obligation):
                       'the parent is the nearest NAMED enclosing scope')
 
 
-OBLIGATIONS = [C18a, C18b, C18c]
+from obligations.scopes import SCOPE_CORPUS, definition_parents  # noqa: E402
+
+
+class C18d(Obligation):
+    id = 'C18.d'
+    title = 'parent() of a definition is its lexically enclosing def/class (a parameter\'s parent is its function), for every definition'
+    pattern = 'P4 concrete tree x symbolic cursor; reference from CPython ast'
+    interpret_modules = ('jedi', 'parso', 'obligations')
+    loop_bound = 400
+    max_paths = 6000
+    assumptions = (
+        'corpus file with nested classes/functions, star and annotated parameters; the cursor is symbolic and resolved by the '
+        'interpreted get_leaf_for_position; domain: def/class names, parameters of def, plain assignment targets; the Name is '
+        'built by ModuleContext.create_name and parent()/type run natively on the concrete token',
+    )
+
+    def scenario(self, ctx, cfg):
+        src = SCOPE_CORPUS[0]
+        script = jedi.Script(src)
+        defs = definition_parents(src)
+        line = ctx.int('line')
+        column = ctx.int('column')
+        ctx.assume(ctx.Or(*[ctx.And(line == l, c < column, column <= c + 1) for (l, c) in defs]))
+        leaf = ctx.run(script._module_node.get_leaf_for_position, (line, column))
+        if leaf is None or leaf.start_pos not in defs:
+            ctx.check(False, 'the position resolves to the definition token')
+            return
+        name, parent_label = defs[leaf.start_pos]
+        n = classes.Name(script._inference_state, script._get_module_context().create_name(leaf))
+        out = ctx.call(n.parent)
+        ctx.check(out.exc is None and out.value is not None, 'parent() never raises')
+        if out.exc is not None or out.value is None:
+            return
+        p = out.value
+        got = 'module' if p.type == 'module' else ('class:' if p.type == 'class' else 'function:') + p.name
+        ctx.observe((name, leaf.start_pos, got), 'parent')
+        ctx.check(got == parent_label, 'parent() is the lexically enclosing definition')
+        ctx.check((n.line, n.column) == leaf.start_pos and n.name == leaf.value,
+                  'the reported position is where the text is exactly the name')
+
+
+OBLIGATIONS = [C18a, C18b, C18c, C18d]
